@@ -65,7 +65,7 @@ Lemma stratify_with_inv m s0 m' :
   /\ m_strats m' = m_strats m ++ [s]
   /\ mem_str (s_name s) (strat_names m) = false
   /\ m_orig m' = m_orig m /\ m_infectious m' = m_infectious m /\ m_times m' = m_times m
-  /\ m_finalized m = false.
+  /\ m_finalized m = false /\ m_requests m' = m_requests m.
 Proof.
   unfold stratify_with, not_finalized. intro H. cbn zeta in H.
   unfold bind at 1 in H. destruct (validate_strat_object s0); [|discriminate].
